@@ -312,6 +312,10 @@ impl GroupStorage for MdkSqliteStorage {
                 )
                 .map_err(into_group_err)?;
 
+                #[cfg(feature = "verif-hooks")]
+                crate::verif::tick_fallible("replace_group_relays::after_delete")
+                    .map_err(into_group_err)?;
+
                 for relay_url in &relays {
                     conn.execute(
                         "INSERT INTO group_relays (mls_group_id, relay_url) VALUES (?, ?)",
